@@ -39,9 +39,36 @@ func Load(dir string, tests bool, patterns ...string) ([]*packages.Package, erro
 // Build creates a fresh Program for pkgs in the given mode, builds it and
 // returns every function with a body, in a deterministic order.
 func Build(pkgs []*packages.Package, mode ir.BuilderMode) (*ir.Program, []*ir.Function) {
+	prog, fns, _ := BuildSafe(pkgs, mode)
+	return prog, fns
+}
+
+// SafeBuild builds every package of prog from the calling goroutine, one after
+// the other, and turns a panic of the builder into an observation instead of
+// the end of the monitor (Program.Build runs the package builders in goroutines
+// of its own, where a panic cannot be recovered). Concurrent building is C18's
+// business; the checks that use this run many programs in parallel instead.
+func SafeBuild(prog *ir.Program) (panics []string) {
+	pkgs := prog.AllPackages()
+	sort.Slice(pkgs, func(i, j int) bool { return pkgs[i].Pkg.Path() < pkgs[j].Pkg.Path() })
+	for _, p := range pkgs {
+		func() {
+			defer func() {
+				if e := recover(); e != nil {
+					panics = append(panics, fmt.Sprintf("building %s: %v", p.Pkg.Path(), e))
+				}
+			}()
+			p.Build()
+		}()
+	}
+	return panics
+}
+
+// BuildSafe is Build that also reports builder panics.
+func BuildSafe(pkgs []*packages.Package, mode ir.BuilderMode) (*ir.Program, []*ir.Function, []string) {
 	prog, _ := irutil.Packages(pkgs, mode)
-	prog.Build()
-	return prog, Functions(prog)
+	panics := SafeBuild(prog)
+	return prog, Functions(prog), panics
 }
 
 // Functions lists all functions reachable in prog that have blocks, sorted by name+position.
